@@ -349,18 +349,39 @@ def run_answers(case, rec):
                 pass
         installed = PriorityAttacher()
         removed = Fixed(lambda circuits: circuits.get(2))
-        installed.add_attacher(removed, priority=1)
-        installed.add_attacher(att, priority=case["priority"])
-        installed.add_attacher(Fixed(None), priority=0)
-        installed.remove_attacher(removed)
+
+        def populate():
+            installed.add_attacher(removed, priority=1)
+            installed.add_attacher(att, priority=case["priority"])
+            installed.add_attacher(Fixed(None), priority=0)
+            installed.remove_attacher(removed)
         w.removed_sub = removed
         rec.count("priority_compositions")
+        if case.get("priority_late"):
+            rec.count("priority_attacher_installed_empty")
+        else:
+            populate()
     d = w.state.set_attacher(installed, w.reactor)
+    if case.get("priority") and case.get("priority_late"):
+        populate()
+    if case.get("remove_before_ack"):
+        # the application changes its mind before Tor has answered: install, remove, install again
+        w.state.set_attacher(None, w.reactor)
+        w.pump()
+        rec.count("removals_before_install_was_acknowledged")
+        lines = [l for l in w.tor.lines if l.startswith("SETCONF")][setconf_before:]
+        if lines != ["SETCONF __LeaveStreamsUnattached=1", "SETCONF __LeaveStreamsUnattached=0"] \
+                or w.conf.get("__LeaveStreamsUnattached") != ["0"]:
+            rec.violation("removal-does-not-tell-tor", "attacher-ops/removed-before-install-acknowledged",
+                          {"lines": lines, "store": w.conf.get("__LeaveStreamsUnattached")}, case)
+        setconf_before = len([l for l in w.tor.lines if l.startswith("SETCONF")])
+        w.state.set_attacher(installed, w.reactor)
     w.pump()
     lines = [l for l in w.tor.lines if l.startswith("SETCONF")][setconf_before:]
     rec.count("attacher_installs")
     if lines != ["SETCONF __LeaveStreamsUnattached=1"]:
-        rec.violation("install-does-not-tell-tor", "install", {"lines": lines}, case)
+        rec.violation("install-does-not-tell-tor", "install" + ("/priority-attacher-empty-at-install" if case.get("priority") and case.get("priority_late") else ""),
+                      {"lines": lines}, case)
     # circuit 6 was built and closed before the streams (answer kind "closed")
     w.circ_event(6, "LAUNCHED", 0)
     w.circ_event(6, "BUILT", 3)
@@ -508,7 +529,8 @@ def gen_answers_case(rnd, combo=None):
         if rnd.random() < 0.5:
             steps.append(("later", s["sid"], rnd.choice(["SENTCONNECT", "REMAP", "SUCCEEDED"]), rnd.choice([1, 2, 5])))
     return {"kind": "answers", "streams": streams, "steps": steps, "remove": rnd.random() < 0.4,
-            "priority": rnd.choice([0, 0, 2, 5]), "chunking": gen.chunking(rnd)}
+            "priority": rnd.choice([0, 0, 2, 5]), "priority_late": rnd.random() < 0.4,
+            "remove_before_ack": rnd.random() < 0.2, "chunking": gen.chunking(rnd)}
 
 
 # ---------------------------------------------------------------------------
